@@ -788,7 +788,8 @@ def drive(prop, tier, mod, only=None):
         log("FRAMEWORK-ERROR %s" % str(e)[:3000])
         rc = 2
     finally:
-        shutil.rmtree(scratch, ignore_errors=True)
+        if not os.environ.get("VERIF_KEEP_SCRATCH"):
+            shutil.rmtree(scratch, ignore_errors=True)
     return rc
 
 
